@@ -1,7 +1,8 @@
 (** C07 — Qremote delivers the queued message content unchanged.
     Only statements here; proofs live in Proofs/Qr*.v. *)
 From Qv Require Import Common.Bytes Gen.GenQrdata Model.Mime Model.QrData Spec.SmtpDataSpec
-  Proofs.QrNeedRecodeProofs Proofs.QrPlainSpecProofs Proofs.QrQpDecodeProofs Proofs.QrQpTopProofs.
+  Proofs.QrNeedRecodeProofs Proofs.QrPlainSpecProofs Proofs.QrQpDecodeProofs Proofs.QrQpTopProofs Proofs.QrWrapLineProofs
+  Spec.DeliverSpec.
 
 (** When no recoding is necessary, what is sent after the 354 is, byte for byte, the message with CR, LF
     and CRLF line ends normalised to CRLF (a final CRLF added if missing; the empty message stays
@@ -28,6 +29,22 @@ Proof.
   exists st'. split; [exact E|exact HR].
 Qed.
 Print Assumptions C07_qp_body.
+
+(** wrap_line() on any line of at least WL_LONG octets: what it writes is the dot-stuffed line followed by
+    CRLF with "CRLF SP" inserted at some places — [unfolds_to], the relation with which the C07 checker
+    undoes the folding, holds.  (The blank in front of a folding point stays, a blank is added behind it.) *)
+Theorem C07_wrap_line : forall (m : bytes) (b len : nat) (st : St),
+  b + len <= length m -> WL_LONG <= len ->
+  exists st' d, wrap_line m b len st = Ok (len, st') /\
+    concat (rev (out st')) = concat (rev (out st)) ++ d /\
+    unfolds_to d (stuff_line (sub m b len) ++ CRLF) = true.
+Proof.
+  intros m b len st Hwin Hlong.
+  destruct (wrap_line_ok m b len Hwin st Hlong) as (st' & fs & E & Hcat & _ & _ & (f0 & r & Efs & Hf0) & Hout & _).
+  exists st', (render_frags fs). split; [exact E|]. split; [exact Hout|].
+  rewrite <- Hcat, Efs. apply frags_unfold. exact Hf0.
+Qed.
+Print Assumptions C07_wrap_line.
 
 Example C07_nonvacuous :
   let m := [97; 13; 98; 10; 46; 99; 13; 10; 46; 46; 100]%N in
